@@ -65,11 +65,12 @@ type Tunnel struct {
 	Up      int    // bytes client -> destination
 	Down    int    // bytes destination -> client
 	// behaviour
-	ClientClose string // "closewrite-then-read", "close-after-read", "abrupt"
-	ServerClose string // "after-eof", "after-send", "abrupt"
-	WriteSizes  []int
-	SlowStart   time.Duration // the client waits this long before it starts reading
-	NoServer    bool          // nothing listens at the destination: the open must fail (dial refused at the exit)
+	ClientClose  string // "closewrite-then-read", "close-after-read", "abrupt"
+	ServerClose  string // "after-eof", "after-send", "abrupt"
+	WriteSizes   []int
+	SlowStart    time.Duration // the client waits this long before it starts reading
+	ConnectDelay time.Duration // the destination accepts the exit's connection this late
+	NoServer     bool          // nothing listens at the destination: the open must fail (dial refused at the exit)
 	// observations
 	conn       net.Conn
 	OpenErr    error
@@ -100,13 +101,15 @@ type hop struct {
 
 // TunnelSet runs and observes a set of tunnels on a mesh.
 type TunnelSet struct {
-	m       *Mesh
-	T       []*Tunnel
-	byPort  map[int]*Tunnel
-	markers map[uint64]int // 8-byte plaintext markers -> tunnel id (C04)
-	byEph   map[[32]byte]*Tunnel
-	group   simrt.Group
-	OnOpen  func(t *Tunnel) // called in the client goroutine right after a successful open
+	m             *Mesh
+	T             []*Tunnel
+	byPort        map[int]*Tunnel
+	markers       map[uint64]int // 8-byte plaintext markers -> tunnel id (C04)
+	byEph         map[[32]byte]*Tunnel
+	group         simrt.Group
+	OnOpen        func(t *Tunnel) // called in the client goroutine right after a successful open
+	SlowConnects  bool
+	connectDelays map[string]time.Duration
 	// wire observations
 	MaxPayload     int
 	PlainOnTransit int
@@ -214,6 +217,16 @@ func (ts *TunnelSet) Add(t *Tunnel) {
 	}
 	if !t.NoServer {
 		ts.m.Net.ServeTCP(t.Addr, func(c *simnet.TCPConn) { ts.serve(t, c) })
+	}
+	if ts.SlowConnects && simrt.Chance(1, 3, "slow-connect") {
+		// the destination accepts late: faults can land between the exit's dial and its acknowledgement
+		t.ConnectDelay = time.Duration(100+simrt.Choose(2500, "connectdelayms")) * time.Millisecond
+		if ts.connectDelays == nil {
+			ts.connectDelays = map[string]time.Duration{}
+			ts.m.Net.ConnectDelay = func(node, address string) time.Duration { return ts.connectDelays[address] }
+		}
+		ts.connectDelays[t.Addr] = t.ConnectDelay
+		simrt.Probe("slow_connect")
 	}
 	// markers for the plaintext search
 	for d := 0; d < 2; d++ {
